@@ -36,6 +36,8 @@ type Bias struct {
 	FastAlways, FastNever bool
 	// Async enables asynchronous pruning in the configuration.
 	Async bool
+	// NoEmptyValues excludes empty values (ICS-23 cannot prove them).
+	NoEmptyValues bool
 }
 
 // DefaultBias is the C01-style general workload.
@@ -214,7 +216,7 @@ func (g *Gen) value() []byte {
 	g.ctr++
 	r := g.r
 	switch {
-	case r.Chance(1, 25):
+	case !g.b.NoEmptyValues && r.Chance(1, 25):
 		return []byte{}
 	case r.Chance(g.b.BigValues, 100):
 		n := r.Range(40, 200)
